@@ -592,15 +592,32 @@ func c19Readers(c *fw.Case) {
 		default: // writer
 			p := filepath.Join(dir, "w.rio")
 			fwr, err := recordio.NewFileWriter(recordio.Path(p), recordio.CompressionType(r.Intn(4)))
+			what := "recordio-writer"
 			if err == nil && fwr.Open() == nil {
+				var offs []uint64
 				for i := 0; i < r.Intn(5); i++ {
-					_, _ = fwr.Write(gen.Payload(r, 40))
+					if o, err := fwr.Write(gen.Payload(r, 40)); err == nil {
+						offs = append(offs, o)
+					}
+				}
+				// half of the writers are rewound to an earlier record before Close (with nothing, or something shorter,
+				// written afterwards): Close then also has to cut the file — and still release it
+				if len(offs) > 0 && r.Intn(2) == 0 {
+					if fwr.Seek(offs[r.Intn(len(offs))]) == nil {
+						what += "+rewound"
+						c.Obs("writers_rewound_before_close", 1)
+						if r.Intn(2) == 0 {
+							_, _ = fwr.Write([]byte("x"))
+						}
+					}
 				}
 			}
 			if fwr != nil {
 				_ = fwr.Close()
 			}
-			if !check("recordio-writer") {
+			ok := check(what)
+			runtime.KeepAlive(fwr)
+			if !ok {
 				return
 			}
 		}
